@@ -354,7 +354,9 @@ Definition expected_dump (s : bytes) : option val :=
                   | None => Some None
                   | Some f => dec_footer ext f
                   end in
-      if counts_ok && order_ok && forallb (fun o => match o with Some _ => true | None => false end) types then
+      (* RFC 8536 3.2: utoff MUST NOT be -2^31 (out-of-range data is rejected) *)
+      let offs_ok := forallb (fun '(off, _, _) => negb (off =? -2147483648)) (b_types b) in
+      if counts_ok && order_ok && offs_ok && forallb (fun o => match o with Some _ => true | None => false end) types then
         match rule with
         | None => None
         | Some r =>
@@ -466,6 +468,20 @@ Definition judge_lookups (n : nat) (out : val) : verdict :=
   | _ => JBad B"shape"
   end.
 
+(* lookups on a file: an answer other than an error means the file was accepted, which a file
+   outside [expected_dump] (e.g. a type with utoff = -2^31) must not be *)
+Definition judge_file_lookups (s : bytes) (n : nat) (out : val) : verdict :=
+  match judge_lookups n out with
+  | JOk => match out with
+           | VTup _ => match expected_dump s with
+                       | None => JBad B"malformed-file-accepted"
+                       | Some _ => JOk
+                       end
+           | _ => JOk
+           end
+  | v => v
+  end.
+
 Definition flag_of (v : val) : option bool :=
   match v with VInt 0 => Some false | VInt 1 => Some true | _ => None end.
 Definition i64_ok (v : val) : bool := match v with VInt z => in_i64 z | _ => false end.
@@ -485,11 +501,11 @@ Definition judge (op : bytes) (args : list val) (out : val) : verdict :=
     | _ => JSkip end
   else if op_is op "tz.at" then
     match args with
-    | [VStr _; VTup ts] => if forallb i64_ok ts then judge_lookups (List.length ts) out else JSkip
+    | [VStr s; VTup ts] => if forallb i64_ok ts then judge_file_lookups s (List.length ts) out else JSkip
     | _ => JSkip end
   else if op_is op "tz.atlocal" then
     match args with
-    | [VStr _; VTup ns] => if forallb ndt_ok ns then judge_lookups (List.length ns) out else JSkip
+    | [VStr s; VTup ns] => if forallb ndt_ok ns then judge_file_lookups s (List.length ns) out else JSkip
     | _ => JSkip end
   else if op_is op "tz.rat" then
     match args with
